@@ -90,6 +90,14 @@ func genMgmtCase(r *rand.Rand) SDCase {
 			t := map[string][]model.Ent{a: {gen.Entity(r, v, v.IDs[r.Intn(len(v.IDs))])}, b: {gen.Entity(r, v, v.IDs[r.Intn(len(v.IDs))])}}
 			c.Ops = append(c.Ops, SDOp{Kind: "txn", Txn: t})
 			tags["txn"] = true
+			if r.Intn(2) == 0 {
+				c.Ops = append(c.Ops, genBadTxn(r, append([]string{}, ll...), len(c.Ops)))
+				tags["rejected-txn"] = true
+			}
+		case k < 58 && len(ll) > 0:
+			// a replica of the catalogue (the meta-entities, same ids) inside a regular dataset
+			c.Ops = append(c.Ops, SDOp{Kind: "replicate", DS: ll[r.Intn(len(ll))]})
+			tags["catalogue-replica"] = true
 		case k < 66:
 			nm := names[r.Intn(len(names))]
 			if live[nm] {
@@ -267,6 +275,29 @@ func (s *sdRun) applyMgmt(op SDOp) error {
 			s.mg.kind = map[string]string{}
 		}
 		s.mg.kind[op.DS] = op.To
+	case "replicate":
+		// what a copy job with core.Dataset as its source does: the meta-entities (same ids) land in a regular dataset
+		if s.m.Live(op.DS) == nil {
+			return nil
+		}
+		metas, err := obs.Listing(s.core.Store, s.core.Dsm.GetDataset("core.Dataset"), 0)
+		if err != nil {
+			return err
+		}
+		var ents []model.Ent
+		for _, m := range metas {
+			if !m.Deleted {
+				ents = append(ents, model.NormEnt(m.Ent))
+			}
+		}
+		if len(ents) == 0 {
+			return nil
+		}
+		if err := StoreBatch(s.core, op.DS, ents, false); err != nil {
+			return err
+		}
+		s.m.Apply(op.DS, ents)
+		s.ctx.Out.Stat("c19_catalogue_replicas_written", 1)
 	case "stalewrite":
 		hs := s.mg.stale[op.DS]
 		if len(hs) == 0 {
